@@ -136,6 +136,8 @@ package protectedmemory
 //@   opt no-frame
 //@   param action secretAction
 //@   requires s != nil && wfS(s.secretInternal) && *s.secretInternal.rw == 0 && action != nil
+//@   ensures [C11,C12:a-reader-releases-only-what-it-acquired] retis(release, 1, 0, ret(release, 1, 0)) ==> retis(access, 1, 0, nil)
+//@   ensures [C11:callback-runs-only-between-access-and-release] retis(action, 1, 0, ret(action, 1, 0)) ==> retis(access, 1, 0, nil) && retis(release, 1, 0, ret(release, 1, 0))
 //@   ensures [C11:lock-released] *s.secretInternal.rw == 0
 
 //@ func (*secret).WithBytes
@@ -145,4 +147,6 @@ package protectedmemory
 //@   opt no-frame
 //@   param action secretAction
 //@   requires s != nil && wfS(s.secretInternal) && *s.secretInternal.rw == 0 && action != nil
+//@   ensures [C11,C12:a-reader-releases-only-what-it-acquired] retis(release, 1, 0, ret(release, 1, 0)) ==> retis(access, 1, 0, nil)
+//@   ensures [C11:callback-runs-only-between-access-and-release] retis(action, 1, 0, ret(action, 1, 0)) ==> retis(access, 1, 0, nil) && retis(release, 1, 0, ret(release, 1, 0))
 //@   ensures [C11:lock-released] *s.secretInternal.rw == 0
